@@ -728,6 +728,8 @@ func (c *FnCtx) havocModCoarseEnv(st *State, env *SpecEnv, items []ModItem) {
 					c.heapHavoc(st, arrName(a.Space, a.Key, joinPath(a.Path, lf.Path), lf.Sort))
 				}
 			}
+		case "sent":
+			c.heapHavoc(st, arrName("S", "sent", "", "Int"))
 		}
 	}
 }
